@@ -41,6 +41,14 @@ fn new_runtime(cfg: Option<&Value>) -> CoreRuntime {
                 rt.memory.write_internal_byte(u(p, 0) as u32, u(p, 1) as u8);
             }
         }
+        if let Some(Value::Array(ws)) = cfg.get("kb_write") {
+            let r = &mut rt;
+            if let Some(kb) = r.keyboard.as_mut() {
+                for w in ws {
+                    kb.handle_write(u(w, 0) as u32, u(w, 1) as u8, &mut r.memory);
+                }
+            }
+        }
         if let Some(p) = cfg.get("kb_press").and_then(|v| v.as_u64()) {
             if let Some(kb) = rt.keyboard.as_mut() {
                 kb.set_press_threshold(p as u8);
